@@ -21,13 +21,16 @@
 #include <stdio.h>
 #include <stdlib.h>
 #include <string.h>
+#include <sys/ioctl.h>
 #include <sys/stat.h>
+#include <termios.h>
 #include <sys/wait.h>
 #include <unistd.h>
 
 #include <algorithm>
 #include <functional>
 #include <map>
+#include <memory>
 #include <set>
 #include <string>
 #include <vector>
@@ -42,6 +45,7 @@
 #include "manifest_parser.h"
 #include "state.h"
 #include "status.h"
+#include "status_printer.h"
 #include "util.h"
 #include "verif_hooks.h"
 
@@ -64,6 +68,7 @@ struct Stmt {
   string mkdd;   // this statement's command writes that dyndep file
   int ver = 1, rspver = 1;
   bool badrspdir = false;  // rspfile in a directory that cannot be created
+  vector<string> outp;     // what the command prints, as a list of piece kinds (see RenderOutput)
   vector<string> AllOuts() const {
     vector<string> r = outs;
     r.insert(r.end(), iouts.begin(), iouts.end());
@@ -72,6 +77,7 @@ struct Stmt {
 };
 
 struct PoolDecl { string name; int depth; };
+static string RenderOutput(const Stmt& st);
 
 struct Scenario {
   string id;
@@ -97,6 +103,7 @@ static Stmt ParseStmt(const JV& j) {
   s.mkdd = j["mkdd"].str();
   s.ver = (int)j["ver"].num(1); s.rspver = (int)j["rspver"].num(1);
   s.badrspdir = j["badrspdir"].boolean();
+  s.outp = j["outp"].strs();
   return s;
 }
 
@@ -481,7 +488,9 @@ struct ModelRunner : public CommandRunner {
       if (st->deps == "depfile" || st->deps == "gcc")
         put(st->outs[0] + ".d", st->outs[0] + ": " + Join(st->hdrs) + "\n", false);
     }
-    if (fails) *output += "command failed\n";
+    if (fails) *output += "command failed (e" + to_string(st->id) + ")\n";
+    *output += RenderOutput(*st);
+    if (r.console) output->clear();   // a console command writes to the terminal itself, nothing is captured
     return wr + "]";
   }
 
@@ -534,21 +543,109 @@ struct ModelRunner : public CommandRunner {
 };
 vector<Running> ModelRunner::g_aborted;
 
+// What a command prints: pieces with distinguishable marks, NUL bytes, ANSI colour sequences, carriage returns,
+// a long run, with or without a final newline.
+static string RenderOutput(const Stmt& st) {
+  string o;
+  int k = 0;
+  for (auto& p : st.outp) {
+    ++k;
+    if (p == "mark") o += "<out " + to_string(st.id) + "." + to_string(k) + ">";
+    else if (p == "nl") o += "\n";
+    else if (p == "nul") o += string("a\0b", 3);
+    else if (p == "ansi") o += "\x1b[31mred\x1b[0m";
+    else if (p == "cr") o += "x\ry";
+    else if (p == "long") o += string(5000, 'L');
+    else if (p == "bracket") o += "[9/9] looks like a status line";
+    else if (p == "failed") o += "FAILED: not really";
+  }
+  return o;
+}
+
+// The real StatusPrinter writing to a captured stdout (a file or a pseudo terminal); the bytes it writes are read
+// back after every Status call so the trace shows them at the call that produced them.
+struct PrinterCapture {
+  string mode;   // "pipe" or "tty"
+  int rfd = -1;  // file: read side (own offset); tty: master
+  bool Setup(const string& m) {
+    mode = m;
+    if (m == "pipe") {
+      string path = g_scratch + "/stdout.cap";
+      int wfd = open(path.c_str(), O_CREAT | O_TRUNC | O_WRONLY | O_APPEND, 0600);
+      rfd = open(path.c_str(), O_RDONLY);
+      if (wfd < 0 || rfd < 0) return false;
+      dup2(wfd, 1);
+      close(wfd);
+      unsetenv("TERM");
+    } else {
+      int master = posix_openpt(O_RDWR | O_NOCTTY);
+      if (master < 0 || grantpt(master) != 0 || unlockpt(master) != 0) return false;
+      int slave = open(ptsname(master), O_RDWR | O_NOCTTY);
+      if (slave < 0) return false;
+      struct termios t;
+      tcgetattr(slave, &t);
+      cfmakeraw(&t);
+      tcsetattr(slave, TCSANOW, &t);
+      struct winsize ws = {50, 400, 0, 0};
+      ioctl(slave, TIOCSWINSZ, &ws);
+      dup2(slave, 1);
+      close(slave);
+      rfd = master;
+      fcntl(rfd, F_SETFL, fcntl(rfd, F_GETFL) | O_NONBLOCK);
+      setenv("TERM", "xterm", 1);
+    }
+    unsetenv("NINJA_STATUS"); unsetenv("NO_COLOR"); unsetenv("CLICOLOR_FORCE"); unsetenv("FORCE_COLOR");
+    return true;
+  }
+  string Drain() {
+    fflush(stdout);
+    string r;
+    char buf[65536];
+    for (;;) {
+      ssize_t n = read(rfd, buf, sizeof buf);
+      if (n <= 0) break;
+      r.append(buf, n);
+    }
+    return r;
+  }
+};
+
 struct TraceStatus : public Status {
   int total = 0, started = 0, finished = 0;
+  StatusPrinter* real = nullptr;
+  PrinterCapture* cap = nullptr;
+  void Out() {
+    if (!cap) return;
+    string b = cap->Drain();
+    if (b.empty()) return;
+    string j = "[";
+    for (size_t i = 0; i < b.size(); ++i) { if (i) j += ","; j += to_string((unsigned char)b[i]); }
+    Emit("{\"e\":\"Out\",\"b\":" + j + "]}");
+  }
   void Ev(const char* c, const Edge* e, const string& extra = "") {
     Emit(string("{\"e\":\"St\",\"c\":\"") + c + "\",\"s\":" + to_string(SidOf(e)) + ",\"tot\":" + to_string(total) +
          ",\"st\":" + to_string(started) + ",\"fin\":" + to_string(finished) + extra + "}");
   }
-  void EdgeAddedToPlan(const Edge* e) override { ++total; Ev("add", e); }
-  void EdgeRemovedFromPlan(const Edge* e) override { --total; Ev("remove", e); }
-  void BuildEdgeStarted(const Edge* e, int64_t) override { ++started; Ev("started", e); }
-  void BuildEdgeFinished(Edge* e, int64_t, int64_t, ExitStatus code, const string& output) override {
-    ++finished;
-    Ev("finished", e, ",\"code\":" + to_string((int)code) + ",\"out\":" + JEsc(output));
+  string Txt(const Edge* e) {
+    if (!real) return "";
+    string outs;
+    for (Node* o : e->outputs_) outs += o->path() + " ";
+    return ",\"console\":" + string(e->use_console() ? "true" : "false") + ",\"cmd\":" + JEsc(const_cast<Edge*>(e)->EvaluateCommand()) +
+           ",\"desc\":" + JEsc(e->GetBinding("description")) + ",\"outs\":" + JEsc(outs);
   }
-  void BuildStarted() override { Ev("buildstarted", nullptr); }
-  void BuildFinished() override { Ev("buildfinished", nullptr); }
+  void EdgeAddedToPlan(const Edge* e) override { ++total; Ev("add", e); if (real) { real->EdgeAddedToPlan(e); Out(); } }
+  void EdgeRemovedFromPlan(const Edge* e) override { --total; Ev("remove", e); if (real) { real->EdgeRemovedFromPlan(e); Out(); } }
+  void BuildEdgeStarted(const Edge* e, int64_t t) override {
+    ++started; Ev("started", e, Txt(e));
+    if (real) { real->BuildEdgeStarted(e, t); Out(); }
+  }
+  void BuildEdgeFinished(Edge* e, int64_t t0, int64_t t1, ExitStatus code, const string& output) override {
+    ++finished;
+    Ev("finished", e, ",\"code\":" + to_string((int)code) + ",\"out\":" + JEsc(output) + Txt(e));
+    if (real) { real->BuildEdgeFinished(e, t0, t1, code, output); Out(); }
+  }
+  void BuildStarted() override { Ev("buildstarted", nullptr); if (real) { real->BuildStarted(); Out(); } }
+  void BuildFinished() override { Ev("buildfinished", nullptr); if (real) { real->BuildFinished(); Out(); } }
   void SetExplanations(Explanations*) override {}
   void NewLine() override {}
   void Msg(const char* kind, const char* msg, va_list ap) {
@@ -691,6 +788,17 @@ static void ChildInvocation(const JV& step) {
   config.failures_allowed = k > 0 ? k : INT_MAX;
   config.dry_run = dry;
   TraceStatus status;
+  PrinterCapture cap;
+  BuildConfig pconfig = config;
+  pconfig.verbosity = step["verbose"].boolean() ? BuildConfig::VERBOSE : BuildConfig::NORMAL;
+  std::unique_ptr<StatusPrinter> printer;
+  if (step["printer"].t == JV::Str && !step["printer"].s.empty()) {
+    if (!cap.Setup(step["printer"].s)) finish(1, "printer capture failed");
+    printer.reset(new StatusPrinter(pconfig));
+    status.real = printer.get();
+    status.cap = &cap;
+    Emit("{\"e\":\"Printer\",\"mode\":" + JEsc(cap.mode) + ",\"verbose\":" + (step["verbose"].boolean() ? "true" : "false") + "}");
+  }
   int code = 0;
   string msg;
   {
